@@ -1002,6 +1002,8 @@ func (e *specEnv) evalModTargets(ex SExpr) []modTarget {
 				a := e.muAddrOf(ex.Args[0])
 				x.h.schema[onceRegionName] = []regionSchema{{onceRegionName, 1, SBool}}
 				return []modTarget{{prefix: onceRegionName, match: func(ref, idx *Term) *Term { return c.Eq(ref, a) }}}
+			case "captured":
+				return nil // variables of the enclosing function: checked syntactically (closure frame), no heap cells
 			case "nothing":
 				return nil
 			case "when":
